@@ -103,7 +103,7 @@ def workload(ctx, lentil):
     ctx.expect_raises('index=noll', (ValueError,), lambda: Z.zernike_index(0), 'index|zero', 'index 0 accepted')
 
     # ---- (ii)/(iv) values on caller supplied polar coordinates -----------------------------------
-    nv = 160 if ctx.tier == 'quick' else 900
+    nv = ctx.count(160, 900)
     for i in range(nv):
         # up to radial order 26 (j = 378): beyond that float64 cancellation in any factorial sum exceeds the tolerance
         j = int(rng.integers(1, 379)) if rng.random() < 0.8 else int(rng.integers(1, 29))
@@ -151,7 +151,7 @@ def workload(ctx, lentil):
     ones = np.ones((K, M))
     jg = 45 if ctx.tier == 'quick' else 91
     pairs = [(a, b) for a in range(1, jg + 1) for b in range(a, jg + 1)]
-    extra = 60 if ctx.tier == 'quick' else 600
+    extra = ctx.count(60, 600)
     for _ in range(extra):
         a, b = int(rng.integers(1, 153)), int(rng.integers(1, 153))
         pairs.append((min(a, b), max(a, b)))
@@ -182,7 +182,7 @@ def workload(ctx, lentil):
                   'normalised modes are not orthonormal over the unit disk', dict(desc, value=g), scale=1.0)
 
     # ---- (v) default coordinates -------------------------------------------------------------------
-    nc = 110 if ctx.tier == 'quick' else 700
+    nc = ctx.count(110, 700)
     for i in range(nc):
         shape = gen.rshape(rng, 3, 26)
         mask = gen.support(rng, shape)
